@@ -101,3 +101,64 @@ pub proof fn lemma_shrink_then_grow(a: &Topic, b: &Topic, c: &Topic, k: int, k2:
         assert(b.partitions@.contains_key(p));
     }
 }
+
+// ---- LINK harnesses (link pass 2): the contracts other units ASSUME for functions proved here, proved from the real ones -------
+// Each harness has the assuming unit's stub signature, its `requires` / `ensures` copied VERBATIM from that unit's prelude.rs, and a
+// body that is ONE call of the real extracted function: Verus proves "real contract ==> assumed contract" on every run of this
+// unit. A later edit of a stub has to be mirrored here (and vice versa).
+impl Topic {
+    // copied from units/alloc_runtime/prelude.rs, stub `Topic::delete`
+    // label: C06.link.alloc_runtime.topic_delete
+    pub fn link_alloc_runtime_topic_delete(&self) -> (r: Result<(), IggyError>) ensures r is Ok { self.delete() }
+    // copied from units/catalogue_maps/prelude.rs, stub `Topic::delete`
+    // label: C06.link.catalogue_maps.topic_delete
+    pub fn link_catalogue_maps_topic_delete(&self) -> (r: Result<(), IggyError>) ensures r is Ok { self.delete() }
+    // copied from units/runtime_more/prelude.rs, stub `Topic::delete`
+    // label: C06.link.runtime_more.topic_delete
+    pub fn link_runtime_more_topic_delete(&self) -> (r: Result<(), IggyError>) ensures r is Ok { self.delete() }
+}
+impl Stream {
+    // copied from units/alloc_runtime/prelude.rs, stub `Stream::delete`
+    // label: C06.link.alloc_runtime.stream_delete
+    pub fn link_alloc_runtime_stream_delete(&self) -> (r: Result<(), IggyError>) ensures r is Ok { self.delete() }
+    // copied from units/catalogue_maps/prelude.rs, stub `Stream::delete`
+    // label: C06.link.catalogue_maps.stream_delete
+    pub fn link_catalogue_maps_stream_delete(&self) -> (r: Result<(), IggyError>) ensures r is Ok { self.delete() }
+    // copied from units/runtime_more/prelude.rs, stub `Stream::delete`
+    // label: C06.link.runtime_more.stream_delete
+    pub fn link_runtime_more_stream_delete(&self) -> (r: Result<(), IggyError>) ensures r is Ok { self.delete() }
+}
+// (these six rest on the fault scope of C06 stated in unit.toml: PartitionStorage / TopicStorage / StreamStorage::delete and
+//  Segment::delete return Ok — what is proved is that the real Topic::delete / Stream::delete add no failure of their own)
+
+// (alloc_runtime's stub of `User::new` is linked from unit credentials, harness [C05.link.alloc_runtime.User_new])
+// (alloc_runtime's stub of `System::get_user` is linked from unit credentials too, harness [C05.link.alloc_runtime.get_user])
+
+// ---- units/consumer_group/prelude.rs: there the partition objects are OPAQUE cells (`PartitionCell`) and Topic keeps stream_id / topic_id /
+// partitions / consumer_groups; `parts_ok(t)` is UNINTERPRETED there. The link gives it its INTERPRETATION over the real records: the
+// preconditions under which the two functions are proved in this unit (ids exactly 1..=n <= MAX_PARTITIONS_COUNT, each partition filed
+// under its own ids; A-size: the topic's segment / message totals fit u32 / u64).
+pub open spec fn parts_ok(t: Topic) -> bool {
+    &&& parts_wf(&t)
+    &&& sum_segs(t.partitions@, 0, t.partitions@.len() as int) <= u32::MAX
+    &&& sum_msgs(t.partitions@, 0, t.partitions@.len() as int) <= u64::MAX
+}
+impl Topic {
+    // copied from units/consumer_group/prelude.rs, stub `Topic::add_persisted_partitions`. The `requires` was ADDED by the link (the stub had
+    // none: the real function adds `current_partitions_count + count` in u32 and is proved under parts_wf). Its first `ensures`,
+    // `final(self).consumer_groups == old(self).consumer_groups`, cannot be written here: this unit's Topic (R12 keep-list) has no
+    // `consumer_groups` field — the real function type-checks without it, so it cannot touch it, and every KEPT field but `partitions` is
+    // framed by [C06.partitions.add_persisted] / [C06.fail.add_persisted_partitions]; that clause stays a projection argument.
+    // label: C08.link.consumer_group.add_persisted_partitions
+    pub fn link_consumer_group_add_persisted_partitions(&mut self, count: u32) -> (r: Result<Vec<u32>, IggyError>)
+        requires parts_ok(*old(self)), count <= 100_000,
+        ensures final(self).partitions@.len() <= u32::MAX,
+    { self.add_persisted_partitions(count) }
+    // copied from units/consumer_group/prelude.rs, stub `Topic::delete_persisted_partitions` (as above: `requires` ADDED by the link — the
+    // real function `unwrap()`s `partitions.remove(&id)` for the n highest ids and sums the gauges in u32 / u64; consumer_groups clause: projection)
+    // label: C08.link.consumer_group.delete_persisted_partitions
+    pub fn link_consumer_group_delete_persisted_partitions(&mut self, count: u32) -> (r: Result<Option<DeletedPartitions>, IggyError>)
+        requires parts_ok(*old(self)),
+        ensures final(self).partitions@.len() <= u32::MAX,
+    { self.delete_persisted_partitions(count) }
+}
